@@ -240,7 +240,7 @@ func init() {
 
 func TestC11(t *testing.T) {
 	defer silenceAs("workloads")()
-	col := evid.New("C11", "workloads", "workloads run under the Go race detector: (1) one shared prepared evaluator, 2-16 goroutines x 20-200 Run calls on different objects, scripts using fields, a persistent counter (count = count + 1, count++, count += 1, returning the counter), regexps, built-ins and user functions; (2) 2-16 goroutines each creating, preparing and running their own evaluators with shared and distinct regexp patterns (~=, !~, switch regexp cases, replace, match); (3) both at once; GOMAXPROCS 2/4/16, optional Gosched between calls; oracle: zero race reports and no fatal 'concurrent map' error (the workload is journalled before it starts), every call returns the verdict a sequential run gives that object, the persistent counter equals the number of runs; non-trivial = >=2 goroutines overlap on shared state (same evaluator, or regexp use in different evaluators); distinct by workload")
+	col := evid.New("C11", "workloads", "workloads run under the Go race detector: (1) one shared prepared evaluator, 2-16 goroutines x 20-200 Run calls on different objects, scripts using fields, a persistent counter (count = count + 1, count++, count += 1, returning the counter), regexps, built-ins and user functions; (2) 2-16 goroutines each creating, preparing and running their own evaluators with shared and distinct regexp patterns (~=, !~, switch regexp cases, replace, match); (3) both at once; GOMAXPROCS 2/4/16, optional Gosched between calls; objects are structs, pointers and maps sharing three nested maps, and some shared scripts fail for some objects inside loop/function scopes; oracle: zero race reports and no fatal 'concurrent map' error (the workload is journalled before it starts), every call returns the verdict (or fails exactly as) a sequential run for that object, the persistent counter equals the number of runs; non-trivial = >=2 goroutines overlap on shared state (same evaluator, or regexp use in different evaluators); distinct by workload")
 	replayKnown(t, col, "C11")
 	defer func() {
 		if out := os.Getenv("VERIF_OUT"); out != "" {
